@@ -232,12 +232,23 @@ def run(ctx: Ctx) -> None:
             continue
         runnable.append((spec, exp, sess))
     # every accepted plan terminates (returns or raises) in every mode
+    # time box: MULTIPROCESSING runs of plans in the known hanging classes cost up to 3 x the watchdog each; once the box is used up
+    # the remaining plans are not run (counted in the evidence) so that the thorough tier stays inside its 90-minute limit
+    import time as _time
+
+    box = ctx.t0 + (480 if ctx.quick else 1800)
+    not_run = 0
     for spec, exp, sess in runnable:
+        if _time.time() > box:
+            not_run += 1
+            continue
         for mode in ["sync", "thread"] + (["mp"] if (not ctx.quick and ctx.rng.random() < 0.2) else []):
-            rr = S.run_session(sess, mode, timeout=60)
+            rr = S.run_session(sess, mode, timeout=20 if mode == "mp" else 60)
             ctx.case("terminates", {"spec": spec, "mode": mode}, len(exp["steps"]) >= 3, mode=mode, outcome="timeout" if rr.timed_out else ("raise" if rr.error else "return"))
             if rr.timed_out:
                 ctx.violation("terminates", {"spec": spec, "mode": mode}, f"accepted plan did not terminate within 60 s in mode {mode}", "timeout", "return or raise")
+    if not_run:
+        ctx.tag("terminates_not_run_time_box", "plans", not_run)
     S.stop_flight_server()
     # across processes / hash seeds
     sub = specs if not ctx.quick else specs[: max(10, len(specs) // 2)]
